@@ -27,7 +27,7 @@ def gen_case(r):
     d = G.hostile_doc(r, 4)
     roots = []
     for _ in range(r.between(2, 3)):
-        roots.append(G.guided_path(r, d, max_len=2, miss=10, mode="typed", prim_only=r.coin(65)))
+        roots.append(G.guided_path(r, d, max_len=2 if r.pct() >= 6 else 6, miss=10, mode="typed", prim_only=r.coin(65)))
     Ts = []
     for _ in range(r.between(1, 2)):
         root = r.choice(roots)
@@ -36,6 +36,11 @@ def gen_case(r):
         sub = r.choice(conts) if conts else d
         Ts.append(G.schema_for(r, sub, min_rules=0, max_rules=3, mode="typed", cast_p=35, cond_depth=1, max_len=2, with_doc=True))
     Ss = [G.schema_for(r, d, min_rules=0, max_rules=2, mode="typed", cast_p=20, cond_depth=1, max_len=3) for _ in range(r.between(2, 3))]
+    if r.pct() < 3:
+        # a target that already holds many rules (thresholds in the bookkeeping of add_schema)
+        base = G.rule_for(r, d, mode="typed", cond_depth=0, max_len=2)
+        many = [base.replace(path=PathT(list(base.path.parts) + [Prim(f"k{i}")] * (i % 3))) for i in range(r.choice([64, 70, 100]))]
+        Ss[0] = SchemaT(list(Ss[0].rules) + many)
     prog = []
     for _ in range(r.between(2, 10)):
         if r.pct() < 62:
